@@ -270,6 +270,19 @@ def main():
         finally:
             for od in dirs[1:]:
                 _sh.rmtree(od, ignore_errors=True)
+        # saving does not consume process resources: open file descriptors before and after 40 checkpoints
+        if os.path.isdir("/proc/self/fd"):
+            s3 = Sampler(pt, ll, n_dim=2, n_particles=16, random_state=3, output_dir=os.path.join(tmp, "fds"))
+            s3.run(n_total=32, progress=False)
+            s3.save_state(os.path.join(tmp, "fds", "w.state"))
+            n0 = len(os.listdir("/proc/self/fd"))
+            for k in range(40):
+                s3.save_state(os.path.join(tmp, "fds", f"k{k % 3}.state"))
+            n1 = len(os.listdir("/proc/self/fd"))
+            tried += 1
+            if n1 > n0 + 2:
+                return {"reproduced": True, "detail": f"40 checkpoints left {n1 - n0} more open file descriptors behind ({n0} -> {n1}): after about `ulimit -n` saves the next "
+                        f"checkpoint fails with EMFILE", "input": {"probe": "descriptor-leak", "saves": 40}}
         # crash at the instant of the rename: whatever is on disk under the final name right after os.replace returns (data still
         # sitting in a user-space buffer is NOT on disk) must already be the complete new checkpoint
         real_replace = os.replace
